@@ -65,6 +65,12 @@ def threaded_lines(tag, body):
     return tag in ("C01", "C02", "C10") and ("(threaded)" in body or "ThreadedRodeo" in body)
 
 
+def own_memory_lines(tag, body):
+    """The runtime half of C20 ("the well-ordered programs compile and run"): a string handed out by an object lies in
+    that object's own blocks (or is static), so it lives as long as its borrower says."""
+    return tag == "C04" and ("string-outside-own-blocks" in body or "shares-memory" in body or "dangling" in body)
+
+
 def seq_stream(profile, prop, also=None):
     def run(ctx):
         prefix = os.path.join(ctx["work"], f"seq-{profile}-{ctx['seed']}")
@@ -299,7 +305,7 @@ def stress_stream(which, scale=1.0):
             iters, threads = 120, 8
         # the interning-protocol mode is cheap (1 ms per iteration): run ten times as many, the rare races
         # (well below 1 % of rounds) need them
-        per_mode = {"c03": 10.0, "c05": 2.0, "c09": 2.0}.get(which.lower(), 1.0)
+        per_mode = {"c03": 10.0, "c05": 2.0, "c09": 2.0, "views": 4.0}.get(which.lower(), 1.0)
         iters = max(1, int(iters * scale * per_mode))
         cmd = [os.path.join(BIN, "stress"), which.lower(), str(iters), str(threads), str(ctx["seed"])]
         rc, out = sh(cmd, timeout=3600)
@@ -327,7 +333,7 @@ import miri
 
 PROPS = {
     "C01": {
-        "streams": [seq_stream("core", "C01"), seq_stream("views", "C01"), conc_stream("C01"), stress_stream("C03"), stress_stream("C05", 0.5), big_stream("C01")],
+        "streams": [seq_stream("core", "C01"), seq_stream("views", "C01"), conc_stream("C01"), stress_stream("C03"), stress_stream("C05", 0.5), big_stream("C01"), big_stream("C01", "many")],
         "trusted_base": SEQ_TRUST,
         "assumptions": ["concurrent interner: one-thread semantics here; schedules are C03/C05"],
     },
@@ -367,7 +373,7 @@ PROPS = {
         "assumptions": ["use of freed memory by safe user code is C20; concurrent regions are C05"],
     },
     "C06": {
-        "streams": [seq_stream("views", "C06"), big_stream("C06", "many"), big_stream("C06", "hugeeq")],
+        "streams": [seq_stream("views", "C06"), stress_stream("views"), big_stream("C06", "many"), big_stream("C06", "hugeeq")],
         "trusted_base": SEQ_TRUST + ["absence of interior mutability in the real views is not a theorem (C20 receivers + harness)"],
         "assumptions": ["concurrently populated interners: quiescent states (C03)"],
     },
@@ -397,13 +403,13 @@ PROPS = {
         "assumptions": [],
     },
     "C19": {
-        "streams": [probes.stream_c19],
+        "streams": [probes.stream_c19, stress_stream("views")],
         "trusted_base": ["rustc's auto-trait rules are what LassoModel/Markers.lean says (validated on the whole 4x2x9 probe matrix on every run)",
                          "leaf table for std / hashbrown / dashmap types in Markers.leaf"],
         "assumptions": [],
     },
     "C20": {
-        "streams": [probes.stream_c20],
+        "streams": [probes.stream_c20, seq_stream("clone", "C20", also=own_memory_lines), seq_stream("views", "C20", also=own_memory_lines)],
         "trusted_base": ["rustc's borrow checker behaves on the three-statement probes as LassoModel/Borrow.lean says (validated on the whole matrix, error code included, on every run)"],
         "assumptions": [],
     },
